@@ -1,12 +1,13 @@
 #!/bin/bash
 # usage: tools/mutant.sh <patch.diff> <ID> [<ID>...]   — runs the quick checks against a scratch copy of /repo with the patch applied
+# env BASE=<commit> evaluates against an older commit (for seeds that no longer apply to HEAD); patch "none" = unpatched.
 # Nothing in /repo or /verif is modified. Prints one line per check: "<ID> exit=<rc>" (1 = caught).
 set -u
 PATCH=$(readlink -f "$1"); shift
 W=$(mktemp -d /tmp/mut-XXXXXX)
 trap 'git -C /repo worktree remove --force "$W/repo" >/dev/null 2>&1; rm -rf "$W"' EXIT
-git -C /repo worktree add -q --detach "$W/repo" HEAD || exit 3
-if ! git -C "$W/repo" apply "$PATCH"; then echo "patch does not apply"; exit 3; fi
+git -C /repo worktree add -q --detach "$W/repo" ${BASE:-HEAD} || exit 3
+if [ "$(basename "$PATCH")" != none ] && ! git -C "$W/repo" apply "$PATCH"; then echo "patch does not apply"; exit 3; fi
 (cd "$W/repo" && GOFLAGS=-mod=mod go build ./... ) || { echo "mutant does not compile"; exit 3; }
 mkdir -p "$W/verif"
 cp -r /verif/check /verif/checks.d /verif/known_findings.json /verif/harness "$W/verif/"
